@@ -115,6 +115,7 @@ enum WalOp {
 #[derive(Clone, Debug, Serialize, Deserialize, PartialEq, Eq, Hash)]
 struct FaultSpec {
     /// "trunc": newest file cut to `offset` bytes; "flip": byte `offset` of the newest file XOR `mask`;
+    /// "trunc_reopen" / "flip_reopen": the same damage, then `Wal::new` + the case's `tail` before the replay;
     /// "none": no fault at all (only the fault-free checks run)
     kind: String,
     #[serde(default)]
@@ -129,6 +130,10 @@ struct FaultSpec {
 #[derive(Clone, Debug, Serialize, Deserialize, PartialEq, Eq, Hash)]
 struct WalCase {
     ops: Vec<WalOp>,
+    /// life after the crash: the newest file is damaged, then the directory is opened again with
+    /// `Wal::new` and these operations run before the replay (empty = scenario class not exercised)
+    #[serde(default)]
+    tail: Vec<WalOp>,
     /// None = enumerate every fault; Some = only this one (replay files)
     #[serde(default)]
     fault: Option<FaultSpec>,
@@ -491,10 +496,42 @@ fn flip_region(fr: (usize, usize), off: usize) -> &'static str {
     }
 }
 
+/// Open the (damaged) directory again and run the tail. Returns the records it appended.
+fn run_tail(dir: &Path, tail: &[WalOp]) -> Result<(Vec<Exp>, Vec<u64>), String> {
+    let mut wal = catch(|| Wal::new(dir)).map_err(|p| format!("Wal::new panicked: {p}"))?.map_err(|e| format!("Wal::new failed: {e}"))?;
+    let mut exps = Vec::new();
+    let mut seqs = Vec::new();
+    for (i, op) in tail.iter().enumerate() {
+        match op {
+            WalOp::Append(e) => {
+                let entry = e.to_entry();
+                let bytes = bincode::serialize(&entry).expect("serialize");
+                let s = catch(|| wal.append(entry)).map_err(|p| format!("append panicked at tail op {i}: {p}"))?.map_err(|e| format!("append failed at tail op {i}: {e}"))?;
+                exps.push(Exp::Exact(bytes));
+                seqs.push(s);
+            }
+            WalOp::Flush => {
+                catch(|| wal.flush()).map_err(|p| format!("flush panicked at tail op {i}: {p}"))?.map_err(|e| format!("flush failed at tail op {i}: {e}"))?;
+            }
+            WalOp::Reopen => {
+                drop(wal);
+                wal = catch(|| Wal::new(dir)).map_err(|p| format!("Wal::new panicked at tail op {i}: {p}"))?.map_err(|e| format!("Wal::new failed at tail op {i}: {e}"))?;
+            }
+            WalOp::Checkpoint(x) => {
+                catch(|| wal.checkpoint(*x)).map_err(|p| format!("checkpoint panicked at tail op {i}: {p}"))?.map_err(|e| format!("checkpoint failed at tail op {i}: {e}"))?;
+                exps.push(Exp::Marker(*x));
+                seqs.push(wal.current_sequence());
+            }
+        }
+    }
+    drop(wal);
+    Ok((exps, seqs))
+}
+
 /// Execute one case. `Ok(())` = property held (or explained by enabled known findings).
 fn c15_case(dir: &Path, case: &WalCase, kf: Kf15, ev: &RefCell<&mut Evidence>) -> Result<(), Fail15> {
     let h = c15_build(dir, &case.ops, kf, ev)?;
-    let hh = fnv(&case.ops);
+    let hh = fnv(&(&case.ops, &case.tail));
     {
         let mut e = ev.borrow_mut();
         e.class("history");
@@ -664,10 +701,160 @@ fn c15_case(dir: &Path, case: &WalCase, kf: Kf15, ev: &RefCell<&mut Evidence>) -
         res
     };
 
+    // ---- life after the crash: damage, `Wal::new`, the tail's appends, then replay
+    let original: BTreeSet<PathBuf> = h.files.iter().map(|f| f.0.clone()).collect();
+    let cleanup_post = || {
+        for p in list_wal_files(dir) {
+            if !original.contains(&p) {
+                let _ = std::fs::remove_file(&p);
+            }
+        }
+        restore();
+    };
+    let filt = |exps: &[Exp], seqs: &[u64], from: u64| -> Vec<Exp> { exps.iter().zip(seqs).filter(|(_, s)| **s >= from).map(|(e, _)| e.clone()).collect() };
+    // Some((offset, mask)) = flip, None = cut to `n`
+    let post_one = |n: usize, flip: Option<u8>, only_from: Option<u64>| -> Result<(), Fail15> {
+        let kind = if flip.is_some() { "flip_reopen" } else { "trunc_reopen" };
+        let spec = |from: u64| FaultSpec { kind: kind.into(), offset: n, mask: flip.unwrap_or(0), from };
+        let faulted: Vec<u8> = match flip {
+            Some(mask) => flip_bytes(n, mask),
+            None => pristine[..n].to_vec(),
+        };
+        if flip.is_some() && kf.prescreen {
+            let mut all = earlier.clone();
+            all.push(&faulted);
+            if weak_parse(&all, 0, true).max_len > BIG {
+                ev.borrow_mut().class("flip_prescreened_huge_alloc");
+                return Ok(());
+            }
+        }
+        std::fs::write(&newest_path, &faulted).map_err(|e| fail(format!("harness write: {e}")))?;
+        let (j, fr) = frame_of(n);
+        let r = (|| -> Result<(), Fail15> {
+            let (new_exps, new_seqs) = match run_tail(dir, &case.tail) {
+                Ok(x) => x,
+                Err(m) if flip.is_some() => {
+                    // a damaged (not merely torn) log may be refused
+                    let _ = m;
+                    ev.borrow_mut().refusal();
+                    return Ok(());
+                }
+                Err(m) => return Err(Fail15 { msg: format!("newest file truncated to {n} bytes, then reopened: {m}"), fault: Some(spec(0)) }),
+            };
+            ev.borrow_mut().class(if flip.is_some() { "postcrash_flip_scenario" } else { "postcrash_trunc_scenario" });
+            // what must come back: for a cut, the complete records before it; for a flip, everything
+            let keep = if flip.is_some() { h.exps.len() } else { h.base + h.frames.iter().filter(|f| f.1 <= n).count() };
+            let mut exps: Vec<Exp> = h.exps[..keep].to_vec();
+            let mut seqs: Vec<u64> = h.seqs[..keep].to_vec();
+            exps.extend(new_exps.iter().cloned());
+            seqs.extend(new_seqs.iter().cloned());
+            if flip.is_none() && !seqs.windows(2).all(|w| w[0] < w[1]) {
+                return Err(Fail15 {
+                    msg: format!("newest file truncated to {n} bytes, then reopened: sequences of the {keep} surviving records followed by the {} appended after the reopen are not strictly increasing: {seqs:?}", new_seqs.len()),
+                    fault: Some(spec(0)),
+                });
+            }
+            let wal2 = catch(|| Wal::new(dir)).map_err(|p| fail(format!("Wal::new panicked: {p}")))?.map_err(|e| fail(format!("Wal::new failed: {e}")))?;
+            let mut froms: Vec<u64> = match only_from {
+                Some(f) => vec![f],
+                None => {
+                    let mut v = vec![0u64];
+                    if let Some(s) = new_seqs.first() {
+                        v.push(*s);
+                    }
+                    if flip.is_none() && keep > 0 {
+                        v.push(h.seqs[keep - 1]);
+                    }
+                    v
+                }
+            };
+            froms.dedup();
+            for from in froms {
+                let rep = do_replay(&wal2, from).map_err(|p| Fail15 { msg: format!("{kind} at {n}: replay({from}) panicked: {p}"), fault: Some(spec(from)) })?;
+                {
+                    let mut e = ev.borrow_mut();
+                    e.case();
+                    e.class("postcrash_replay");
+                    e.nontrivial(&(hh, kind, n, flip.unwrap_or(0), from));
+                }
+                let full = filt(&exps, &seqs, from);
+                let full_r: Vec<&Exp> = full.iter().collect();
+                let shown = |rep: &Rep| if rep.ok { "Ok".to_string() } else { format!("Err({})", rep.err) };
+                match flip {
+                    None => {
+                        if !(rep.ok && seq_matches(&full_r, &rep.delivered)) {
+                            return Err(Fail15 {
+                                msg: format!(
+                                    "newest file truncated to {n} bytes, Wal::new, tail appended {} records (sequences {new_seqs:?}): replay({from}) -> {} delivering {}; expected Ok delivering the complete records before the cut followed by the appended ones: {}",
+                                    new_seqs.len(),
+                                    shown(&rep),
+                                    show_seq_got(&rep.delivered),
+                                    show_seq_exp(&full_r)
+                                ),
+                                fault: Some(spec(from)),
+                            });
+                        }
+                    }
+                    Some(mask) => {
+                        let mut pass = (rep.ok && seq_matches(&full_r, &rep.delivered)) || (!rep.ok && is_prefix(&full_r, &rep.delivered));
+                        if !pass && n < fr.0 + 4 {
+                            // length prefix flipped past end-of-file: that file may end there, the later files still count
+                            let new_len = u32::from_le_bytes(faulted[fr.0..fr.0 + 4].try_into().unwrap()) as usize;
+                            if new_len > faulted.len() - (fr.0 + 4) {
+                                let mut e2: Vec<Exp> = h.exps[..h.base + j].to_vec();
+                                let mut s2: Vec<u64> = h.seqs[..h.base + j].to_vec();
+                                e2.extend(new_exps.iter().cloned());
+                                s2.extend(new_seqs.iter().cloned());
+                                let alt = filt(&e2, &s2, from);
+                                let alt_r: Vec<&Exp> = alt.iter().collect();
+                                pass = rep.ok && seq_matches(&alt_r, &rep.delivered);
+                            }
+                        }
+                        if !pass && kf.k3 {
+                            let on_disk: Vec<Vec<u8>> = list_wal_files(dir).iter().map(|p| std::fs::read(p).unwrap_or_default()).collect();
+                            let refs: Vec<&[u8]> = on_disk.iter().map(|b| b.as_slice()).collect();
+                            for torn_is_err in [true, false] {
+                                let w = weak_parse(&refs, from, torn_is_err);
+                                if w.ok == rep.ok && w.delivered == rep.delivered {
+                                    ev.borrow_mut().kf_hit(KF3);
+                                    pass = true;
+                                    break;
+                                }
+                            }
+                        }
+                        if !pass {
+                            return Err(Fail15 {
+                                msg: format!(
+                                    "byte {n} of the newest file flipped with {mask:#04x} (offset {} in the frame of record #{}), Wal::new, tail appended {} records (sequences {new_seqs:?}): replay({from}) -> {} delivering {}; allowed: Err after a prefix of, or Ok with exactly, {}",
+                                    n - fr.0,
+                                    h.base + j + 1,
+                                    new_seqs.len(),
+                                    shown(&rep),
+                                    show_seq_got(&rep.delivered),
+                                    show_seq_exp(&full_r)
+                                ),
+                                fault: Some(spec(from)),
+                            });
+                        }
+                    }
+                }
+            }
+            Ok(())
+        })();
+        cleanup_post();
+        r
+    };
+
     let result = (|| -> Result<(), Fail15> {
         match &case.fault {
             // only the fault-free checks above (append return values, replay(from))
             Some(f) if f.kind == "none" => Ok(()),
+            Some(f) if f.kind == "trunc_reopen" || f.kind == "flip_reopen" => {
+                if f.offset >= pristine.len() || case.tail.is_empty() || (f.kind == "flip_reopen" && f.mask == 0) {
+                    return Err(fail(format!("replay case: {} at {} needs a tail and an offset inside the newest file ({} bytes)", f.kind, f.offset, pristine.len())));
+                }
+                post_one(f.offset, if f.kind == "flip_reopen" { Some(f.mask) } else { None }, Some(f.from))
+            }
             Some(f) if f.kind == "trunc" => {
                 if f.offset >= pristine.len() {
                     return Err(fail(format!("replay case: truncation offset {} outside the newest file ({} bytes)", f.offset, pristine.len())));
@@ -688,6 +875,29 @@ fn c15_case(dir: &Path, case: &WalCase, kf: Kf15, ev: &RefCell<&mut Evidence>) -
                 for off in 0..pristine.len() {
                     for mask in MASKS {
                         flip_one(off, mask, None)?;
+                    }
+                }
+                if !case.tail.is_empty() {
+                    // a sample of the offsets, dense where the reader's decisions are made: around every
+                    // record boundary, through the length prefix, the first body byte, the last byte of a
+                    // frame; every 5th offset elsewhere
+                    for n in 0..pristine.len() {
+                        let (_, fr) = frame_of(n);
+                        let rel = n - fr.0;
+                        if rel <= 5 || n + 1 == fr.1 || rel % 5 == 0 {
+                            post_one(n, None, None)?;
+                        }
+                    }
+                    for off in 0..pristine.len() {
+                        let (_, fr) = frame_of(off);
+                        let rel = off - fr.0;
+                        if rel < 4 {
+                            // length prefix: what `Wal::new` and replay use to walk the file
+                            post_one(off, Some(0x01), None)?;
+                            post_one(off, Some(0x80), None)?;
+                        } else if rel == 4 || rel % 16 == 0 {
+                            post_one(off, Some(0x01), None)?;
+                        }
                     }
                 }
                 Ok(())
@@ -782,6 +992,21 @@ fn c15_probe_alloc(dir: &Path) -> Result<bool, String> {
     }
 }
 
+fn tail_strategy() -> impl Strategy<Value = Vec<WalOp>> {
+    let op = prop_oneof![
+        5 => entry_strategy().prop_map(WalOp::Append),
+        1 => Just(WalOp::Flush),
+        1 => Just(WalOp::Reopen),
+        1 => id_strategy().prop_map(WalOp::Checkpoint),
+    ];
+    // at least one append after the reopen; up to 3 more operations
+    (entry_strategy(), proptest::collection::vec(op, 0..=3), any::<u16>()).prop_map(|(first, mut rest, sel)| {
+        let at = pick_idx(sel, rest.len() + 1);
+        rest.insert(at, WalOp::Append(first));
+        rest
+    })
+}
+
 fn c15_witnesses(dir: &Path, kf: &Known, ev: &mut Evidence) -> Kf15 {
     let mut act = Kf15::default();
     for id in [KF1, KF2, KF3] {
@@ -820,7 +1045,7 @@ fn c15(args: &Args) {
     let mut ev = Evidence::new(
         args,
         "fault_enumeration",
-        "histories of append (all 7 entry kinds, payload 0-300 B) / flush / close+reopen / checkpoint on a real Wal directory; then (a) no fault: replay(from) for 0, 1, several returned sequences, max, max+1, u64::MAX must deliver exactly the appended records with returned sequence >= from, in order, and append return values must be strictly increasing across reopen; (b) the newest file truncated to EVERY length 0..len-1: replay must be Ok and deliver exactly the complete records; (c) EVERY byte of the newest file XORed with 0x01, 0x80, 0xFF, replay(0) and replay(seq of the hit record): Err after a prefix of the expected records, or Ok with exactly the expected records (a length prefix flipped past end-of-file may also end the log there). One evaluation = one replay. Non-trivial = the history contains a reopen, or the fault lands inside a record body (past the 4-byte length prefix); distinct = distinct (history, fault, from).",
+        "histories of append (all 7 entry kinds, payload 0-300 B) / flush / close+reopen / checkpoint on a real Wal directory; then (a) no fault: replay(from) for 0, 1, several returned sequences, max, max+1, u64::MAX must deliver exactly the appended records with returned sequence >= from, in order, and append return values must be strictly increasing across reopen; (b) the newest file truncated to EVERY length 0..len-1: replay must be Ok and deliver exactly the complete records; (c) EVERY byte of the newest file XORed with 0x01, 0x80, 0xFF, replay(0) and replay(seq of the hit record): Err after a prefix of the expected records, or Ok with exactly the expected records (a length prefix flipped past end-of-file may also end the log there); (d) life after the crash: the newest file cut at a sample of lengths (around every record boundary, through the length prefix, first body byte, last byte of a frame, every 5th offset elsewhere) or a byte flipped (every length-prefix byte with 0x01 and 0x80, the low sequence byte and every 16th other byte with 0x01), then Wal::new on the directory, a generated tail of 1-4 operations with at least one append (flush/checkpoint/second reopen optional), then replay(0), replay(first new sequence), replay(last surviving sequence): after a cut, Ok delivering exactly the complete records before the cut followed by every record appended after the reopen, and their sequences strictly increasing; after a flip, the flip oracle of (c) over old + new records. One evaluation = one replay. Non-trivial = the history contains a reopen, or the fault lands inside a record body (past the 4-byte length prefix); distinct = distinct (history, fault, from).",
     );
     ev.assume("a crash is modelled as: handle dropped (BufWriter flushed), then the newest log file cut at a byte offset; earlier files are intact");
     ev.assume("Wal::checkpoint writes the wall-clock time into the marker: the timestamp field of such markers is not compared");
@@ -880,12 +1105,12 @@ fn c15(args: &Args) {
         }
     }
 
-    let n = args.tier.pick(400u32, 12_000u32);
-    let strat = history_strategy(args.tier.pick(10, 14));
+    let n = args.tier.pick(400u32, 8_000u32);
+    let strat = (history_strategy(args.tier.pick(10, 14)), tail_strategy());
     let res = {
         let cell = RefCell::new(&mut ev);
-        search_budget(args.seed, n, 1500, &strat, |ops| {
-            let case = WalCase { ops: ops.clone(), fault: None };
+        search_budget(args.seed, n, 1500, &strat, |(ops, tail)| {
+            let case = WalCase { ops: ops.clone(), tail: tail.clone(), fault: None };
             {
                 let mut e = cell.borrow_mut();
                 if e.want_sample() && ops.len() >= 4 && ops.iter().any(|o| matches!(o, WalOp::Reopen)) {
@@ -901,9 +1126,9 @@ fn c15(args: &Args) {
             }
         })
     };
-    if let Some((ops, msg)) = res {
+    if let Some(((ops, tail), msg)) = res {
         // name the failing fault of the minimal history
-        let mut case = WalCase { ops, fault: None };
+        let mut case = WalCase { ops, tail, fault: None };
         let mut msg2 = msg;
         {
             let cell = RefCell::new(&mut ev);
